@@ -79,36 +79,18 @@ Proof.
   intros e2 E. apply edit_chain_joint; eauto using xeqv_sym, xeqv_trans.
 Qed.
 
-(* ------------------------------------------------------------------ known defect classes (predicates on the state an operation is applied to) *)
-(* C08-resize-rewrites-sauce-size: a SAUCE record whose size is not the buffer size *)
-Definition known_sauce_size (s : xstate) : Prop := ~ sauce_in_sync s.
-(* C08-setfont-records-slot0: the font is written to the caret's page but the old font is read from slot 0 *)
-Definition known_setfont (s : xstate) : Prop :=
-  ((x_fontmode s =? 0)%N || (x_fontmode s =? 1)%N = false) /\ fget (x_cfp s) (x_fonts s) <> fget 0 (x_fonts s).
-(* C08-addfont-overwrites-slot: the slot already holds a font *)
-Definition known_addfont (page : N) (s : xstate) : Prop := fget page (x_fonts s) <> None.
-(* C08-fontslot-overwrites-slot: the target slot of change_font_slot already holds another font *)
-Definition known_fontslot (from to : N) (s : xstate) : Prop :=
-  fget from (x_fonts s) <> None /\ from <> to /\ fget to (x_fonts s) <> None.
+(* ------------------------------------------------------------------ known defect classes (predicates on the state an operation is applied to)
+   The four classes this file used to carry (known_sauce_size, known_setfont, known_addfont, known_fontslot) were repaired by fix commits:
+   every modelled operation is now sound on EVERY state (`never`). The old records and their witnesses: end of this file (`*_before_fix_refuted_proof`). *)
 Definition never (s : xstate) : Prop := False.
 
-Lemma optN_dec (a b : option N) : {a = b} + {a <> b}.
-Proof. decide equality. apply N.eq_dec. Qed.
-
-Lemma sauce_in_sync_dec s : {sauce_in_sync s} + {~ sauce_in_sync s}.
-Proof.
-  unfold sauce_in_sync. destruct (x_sauce s) as [sa|]; [|left; exact I].
-  destruct (Z.eq_dec (sa_w sa) (bw (xb s))); [|right; tauto]. destruct (Z.eq_dec (sa_h sa) (bh (xb s))); [left; tauto|right; tauto].
-Qed.
-
 (* ------------------------------------------------------------------ stage 1: component swaps *)
-Lemma x_resize_buffer_sound w h e e' : ~ known_sauce_size (cur e) -> x_resize_buffer w h e = Ok e' -> xedit_chain e e'.
+Lemma x_resize_buffer_sound w h e e' : x_resize_buffer w h e = Ok e' -> xedit_chain e e'.
 Proof.
-  intros HK H. unfold x_resize_buffer in H.
-  assert (Hs : sauce_in_sync (cur e)) by (destruct (sauce_in_sync_dec (cur e)); [assumption|contradiction]).
-  destruct (xpush_sound _ _ e (XResizeBuffer (bw (xb (cur e))) (bh (xb (cur e))) w h) (x_set_bsize (cur e) w h)
+  intro H. unfold x_resize_buffer in H.
+  destruct (xpush_sound _ _ e (XResizeBuffer (bw (xb (cur e))) (bh (xb (cur e))) w h (sauce_size (cur e))) (x_set_bsize (cur e) w h)
               (xstable_lclosed _ xresize_stable)) as (e1 & E1 & C1 & _).
-  { exists w, h. split; [reflexivity|]. split; [exact Hs|apply xeqv_refl]. }
+  { exists w, h. split; [reflexivity|apply xeqv_refl]. }
   xfinish H E1 C1.
 Qed.
 
@@ -136,29 +118,28 @@ Proof.
   xfinish H E1 C1.
 Qed.
 
-Lemma x_set_font_sound sv newf e e' : ~ known_setfont (cur e) -> x_set_font sv newf e = Ok e' -> xedit_chain e e'.
+Lemma x_set_font_sound sv newf e e' : x_set_font sv newf e = Ok e' -> xedit_chain e e'.
 Proof.
-  intros HK H. unfold x_set_font in H.
+  intro H. unfold x_set_font in H.
   destruct ((x_fontmode (cur e) =? 0)%N && negb sv); [discriminate|].
-  destruct newf as [nf|]; [|discriminate]. destruct (fget 0 (x_fonts (cur e))) as [f0|] eqn:E0; [|discriminate].
-  set (slot := if (x_fontmode (cur e) =? 0)%N || (x_fontmode (cur e) =? 1)%N then 0%N else x_cfp (cur e)) in H.
-  assert (Hslot : fget slot (x_fonts (cur e)) = Some f0).
-  { unfold slot. destruct ((x_fontmode (cur e) =? 0)%N || (x_fontmode (cur e) =? 1)%N) eqn:Em; [exact E0|].
-    destruct (optN_dec (fget (x_cfp (cur e)) (x_fonts (cur e))) (fget 0 (x_fonts (cur e)))) as [Heq|Hne]; [congruence|].
-    exfalso. apply HK. split; assumption. }
-  destruct (xpush_sound _ _ e (XSetFont slot f0 nf) (with_fonts (cur e) (fset slot nf (x_fonts (cur e)))) (xstable_lclosed _ setfont_stable)) as (e1 & E1 & C1 & _).
-  { exists slot, f0, nf. split; [reflexivity|]. split; [exact Hslot|apply xeqv_refl]. }
-  xfinish H E1 C1.
+  destruct newf as [nf|]; [|discriminate].
+  destruct ((x_fontmode (cur e) =? 0)%N || (x_fontmode (cur e) =? 1)%N).
+  - destruct (fget 0 (x_fonts (cur e))) as [f0|] eqn:E0; [|discriminate].
+    destruct (xpush_sound _ _ e (XSetFont 0 (Some f0) nf) (with_fonts (cur e) (fset 0 nf (x_fonts (cur e)))) (xstable_lclosed _ setfont_stable)) as (e1 & E1 & C1 & _).
+    { exists 0%N, nf. rewrite E0. split; [reflexivity|apply xeqv_refl]. }
+    xfinish H E1 C1.
+  - set (slot := x_cfp (cur e)) in *.
+    destruct (xpush_sound _ _ e (XSetFont slot (fget slot (x_fonts (cur e))) nf) (with_fonts (cur e) (fset slot nf (x_fonts (cur e)))) (xstable_lclosed _ setfont_stable)) as (e1 & E1 & C1 & _).
+    { exists slot, nf. split; [reflexivity|apply xeqv_refl]. }
+    xfinish H E1 C1.
 Qed.
 
-Lemma x_add_ansi_font_sound page newf e e' : ~ known_addfont page (cur e) -> x_add_ansi_font page newf e = Ok e' -> xedit_chain e e'.
+Lemma x_add_ansi_font_sound page newf e e' : x_add_ansi_font page newf e = Ok e' -> xedit_chain e e'.
 Proof.
-  intros HK H. unfold x_add_ansi_font in H. destruct (x_fontmode (cur e) =? 3)%N; [|discriminate].
+  intro H. unfold x_add_ansi_font in H. destruct (x_fontmode (cur e) =? 3)%N; [|discriminate].
   destruct newf as [nf|]; [|discriminate].
-  assert (Hn : fget page (x_fonts (cur e)) = None).
-  { destruct (fget page (x_fonts (cur e))) eqn:E; [|reflexivity]. exfalso. apply HK. unfold known_addfont. rewrite E. discriminate. }
-  destruct (xpush_sound _ _ e (XAddFont (x_cfp (cur e)) page nf) (with_fonts (cur e) (fset page nf (x_fonts (cur e)))) (xstable_lclosed _ addfont_stable)) as (e1 & E1 & C1 & _).
-  { exists (x_cfp (cur e)), page, nf. split; [reflexivity|]. split; [exact Hn|apply xeqv_refl]. }
+  destruct (xpush_sound _ _ e (XAddFont (x_cfp (cur e)) page nf None) (with_fonts (cur e) (fset page nf (x_fonts (cur e)))) addfont_closed) as (e1 & E1 & C1 & _).
+  { exists (x_cfp (cur e)), page, nf, None. split; [reflexivity|apply xeqv_refl]. }
   xfinish H E1 C1.
 Qed.
 
@@ -190,22 +171,18 @@ Proof.
   xfinish H E1 C1.
 Qed.
 
-Lemma xpush_fontslot_err from to (e : XE) : fget from (x_fonts (cur e)) = None -> xpush (XChangeFontSlot from to) e = Err 6.
+Lemma xpush_fontslot_err from to pay (e : XE) : fget from (x_fonts (cur e)) = None -> xpush (XChangeFontSlot from to pay) e = Err 6.
 Proof. intro Hn. unfold xpush, push_action. rewrite f_redo_leaf. cbn [xop_redo]. rewrite Hn. reflexivity. Qed.
 
-Lemma x_change_font_slot_sound from to e e' : ~ known_fontslot from to (cur e) -> x_change_font_slot from to e = Ok e' -> xedit_chain e e'.
+Lemma x_change_font_slot_sound from to e e' : x_change_font_slot from to e = Ok e' -> xedit_chain e e'.
 Proof.
-  intros HK H. unfold x_change_font_slot in H. eapply xguarded_end_chain; [|exact H]. clear H e'.
+  intro H. unfold x_change_font_slot in H. eapply xguarded_end_chain; [|exact H]. clear H e'.
   set (e0 := mkEs (cur e) (ustk e) []). intros e2 H. cbv beta in H.
   destruct (fget from (x_fonts (cur e))) as [f|] eqn:Ef.
-  - assert (Hto : from = to \/ fget to (x_fonts (cur e)) = None).
-    { destruct (N.eq_dec from to) as [|Hne]; [left; assumption|]. right.
-      destruct (fget to (x_fonts (cur e))) eqn:Et; [|reflexivity]. exfalso. apply HK.
-      unfold known_fontslot. rewrite Ef, Et. repeat split; try discriminate. exact Hne. }
-    destruct (xpush_sound _ _ e0 (XChangeFontSlot from to) (with_fonts (cur e0) (fset to f (fdel from (x_fonts (cur e0))))) (xstable_lclosed _ fontslot_stable)) as (e1 & E1 & C1 & _).
-    { exists from, to, f. split; [reflexivity|]. split; [exact Ef|]. split; [exact Hto|apply xeqv_refl]. }
+  - destruct (xpush_sound _ _ e0 (XChangeFontSlot from to None) (with_fonts (cur e0) (fset to f (fdel from (x_fonts (cur e0))))) fontslot_closed) as (e1 & E1 & C1 & _).
+    { exists from, to, f, None. split; [reflexivity|]. split; [exact Ef|apply xeqv_refl]. }
     rewrite E1 in H. eapply xchain_trans; [exact C1|]. eapply x_replace_font_usage_sound; exact H.
-  - rewrite (xpush_fontslot_err from to e0 Ef) in H. eapply x_replace_font_usage_sound; exact H.
+  - rewrite (xpush_fontslot_err from to None e0 Ef) in H. eapply x_replace_font_usage_sound; exact H.
 Qed.
 
 Lemma x_remove_font_sound font e e' : x_remove_font font e = Ok e' -> xedit_chain e e'.
@@ -299,27 +276,25 @@ Qed.
 
 (* ================================================================================================================
    stage 3: crop / resize with layers *)
-Lemma x_crop_rect_sound r e e' : ~ known_sauce_size (cur e) -> x_crop_rect r e = Ok e' -> xedit_chain e e'.
+Lemma x_crop_rect_sound r e e' : x_crop_rect r e = Ok e' -> xedit_chain e e'.
 Proof.
-  intros HK H. unfold x_crop_rect in H. destruct r as [[[rx ry] rw] rh]. injection H as <-.
-  assert (Hs : sauce_in_sync (cur e)) by (destruct (sauce_in_sync_dec (cur e)); [assumption|contradiction]).
+  intro H. unfold x_crop_rect in H. destruct r as [[[rx ry] rw] rh]. injection H as <-.
   eapply xplain_sound; [apply crop_closed|].
   exists rw, rh, (xlayers (cur e)), (crop_layers (rx, ry, rw, rh) (xlayers (cur e))).
-  split; [reflexivity|]. split; [apply Forall2_leqv_refl|]. split; [exact Hs|apply xeqv_refl].
+  split; [reflexivity|]. split; [apply Forall2_leqv_refl|apply xeqv_refl].
 Qed.
 
-Lemma x_crop_sound e e' : ~ known_sauce_size (cur e) -> x_crop e = Ok e' -> xedit_chain e e'.
+Lemma x_crop_sound e e' : x_crop e = Ok e' -> xedit_chain e e'.
 Proof.
-  intros HK H. unfold x_crop in H. destruct (sel (xb (cur e))); [eapply x_crop_rect_sound; eauto|injection H as <-; apply xchain_refl].
+  intro H. unfold x_crop in H. destruct (sel (xb (cur e))); [eapply x_crop_rect_sound; eauto|injection H as <-; apply xchain_refl].
 Qed.
 
-Lemma x_resize_buffer_layers_sound w h e e' : ~ known_sauce_size (cur e) -> x_resize_buffer_layers w h e = Ok e' -> xedit_chain e e'.
+Lemma x_resize_buffer_layers_sound w h e e' : x_resize_buffer_layers w h e = Ok e' -> xedit_chain e e'.
 Proof.
-  intros HK H. unfold x_resize_buffer_layers in H.
-  assert (Hs : sauce_in_sync (cur e)) by (destruct (sauce_in_sync_dec (cur e)); [assumption|contradiction]).
+  intro H. unfold x_resize_buffer_layers in H.
   destruct (crop_layers (0, 0, w, h) (xlayers (cur e))) as [|L0 lt]; [discriminate|]. injection H as <-.
   eapply xplain_sound; [apply crop_closed|].
-  eexists w, h, (xlayers (cur e)), _. split; [reflexivity|]. split; [apply Forall2_leqv_refl|]. split; [exact Hs|apply xeqv_refl].
+  eexists w, h, (xlayers (cur e)), _. split; [reflexivity|]. split; [apply Forall2_leqv_refl|apply xeqv_refl].
 Qed.
 
 (* ================================================================================================================
@@ -471,23 +446,23 @@ Inductive xmodelled : (XE -> res XE) -> (xstate -> Prop) -> Prop :=
 | xm_lift f : liftable f -> xmodelled (lift_edit f) never
 | xm_flip_x ftabs : xmodelled (x_flip_x ftabs) never
 | xm_flip_y ftabs : xmodelled (x_flip_y ftabs) never
-| xm_resize_buffer w h : xmodelled (x_resize_buffer w h) known_sauce_size
+| xm_resize_buffer w h : xmodelled (x_resize_buffer w h) never
 | xm_switch_to_palette p : xmodelled (x_switch_to_palette p) never
 | xm_update_sauce_data d : xmodelled (x_update_sauce_data d) never
 | xm_switch_to_font_page p : xmodelled (x_switch_to_font_page p) never
-| xm_set_font sv newf : xmodelled (x_set_font sv newf) known_setfont
-| xm_add_ansi_font page newf : xmodelled (x_add_ansi_font page newf) (known_addfont page)
+| xm_set_font sv newf : xmodelled (x_set_font sv newf) never
+| xm_add_ansi_font page newf : xmodelled (x_add_ansi_font page newf) never
 | xm_replace_font_usage a b : xmodelled (x_replace_font_usage a b) never
-| xm_change_font_slot a b : xmodelled (x_change_font_slot a b) (known_fontslot a b)
+| xm_change_font_slot a b : xmodelled (x_change_font_slot a b) never
 | xm_remove_font f : xmodelled (x_remove_font f) never
 | xm_set_ice_mode conv mode : xmodelled (x_set_ice_mode_gen conv mode) never
 | xm_set_palette_mode plan mode : xmodelled (x_set_palette_mode_gen plan mode) never
 | xm_merge_layer_down n : xmodelled (x_merge_layer_down n) never
 | xm_anchor_layer : xmodelled x_anchor_layer never
 | xm_paste L : xmodelled (x_paste_clipboard_data L) never
-| xm_crop_rect r : xmodelled (x_crop_rect r) known_sauce_size
-| xm_crop : xmodelled x_crop known_sauce_size
-| xm_resize_buffer_layers w h : xmodelled (x_resize_buffer_layers w h) known_sauce_size
+| xm_crop_rect r : xmodelled (x_crop_rect r) never
+| xm_crop : xmodelled x_crop never
+| xm_resize_buffer_layers w h : xmodelled (x_resize_buffer_layers w h) never
 | xm_clear_selection : xmodelled x_clear_selection never
 | xm_add_selection_to_mask : xmodelled x_add_selection_to_mask never
 | xm_inverse_selection : xmodelled x_inverse_selection never
@@ -523,6 +498,16 @@ Proof.
   - eapply (x_line_op_sound row_sel (xlift api_center)); [apply xlift_sound, api_center_sound|exact H].
   - eapply (x_line_op_sound row_sel (xlift api_justify_left)); [apply xlift_sound, api_justify_left_sound|exact H].
   - eapply (x_line_op_sound row_sel (xlift api_justify_right)); [apply xlift_sound, api_justify_right_sound|exact H].
+Qed.
+
+(* no known class is left: every constructor carries `never` *)
+Lemma xmodelled_never f K : xmodelled f K -> K = never.
+Proof. destruct 1; reflexivity. Qed.
+
+Theorem xmodelled_sound_everywhere f K : xmodelled f K -> (forall s, ~ K s) /\ forall e e', f e = Ok e' -> xedit_chain e e'.
+Proof.
+  intro Hm. pose proof (xmodelled_never _ _ Hm) as ->. split; [intros s []|].
+  intros e e' H. eapply xmodelled_sound; [exact Hm|intros []|exact H].
 Qed.
 
 (* a history: every operation is modelled, is applied outside its known class, and reports Ok *)
@@ -561,35 +546,64 @@ Proof.
 Qed.
 
 (* ================================================================================================================
-   witnesses of the known classes: inside the class the operation reports Ok and its undo does not restore the document *)
+   a small concrete document for witnesses and Examples *)
 Definition wit_base : estate := mkE 4 2 [mkLayer 0 true false false false false 0 0 0 4 2 (10, 0)%N []] 0 None false 0 0.
 Definition wit_doc (f : fonts) (sa : option sauce) (fm cfp : N) : XE :=
   mkEs (mkX wit_base [0%N; 170%N] f sa 0 1 fm cfp (mkMask 4 2 [])) [] [].
 
-Definition undo_fails_to_restore (f : XE -> res XE) (K : xstate -> Prop) (e : XE) : Prop :=
-  K (cur e) /\ exists e1 e2, f e = Ok e1 /\ undo xop_undo e1 = Ok e2 /\ ~ xeqv (cur e2) (cur e).
+(* ================================================================================================================
+   the four repaired records (documentation): on a concrete document the operation followed by undo restores the document,
+   while the record the code pushed BEFORE the fix commit, undone from the same state, does not.
+   The old records are instances of the new ones:
+     ResizeBuffer / Crop without a recorded SAUCE size            = XResizeBuffer .. None   (sauce_restore _ None is the identity)
+     SetFont recording the font of slot 0 for the caret's slot    = XSetFont (caret page) (font of slot 0) new
+     AddFont / ChangeFontSlot that never captured the old font    = XAddFont .. None / XChangeFontSlot .. None  undone as they are *)
+Definition undo_restores (f : XE -> res XE) (e : XE) : Prop :=
+  exists e1 e2, f e = Ok e1 /\ undo xop_undo e1 = Ok e2 /\ xeqv (cur e2) (cur e).
+Definition old_record_fails (f : XE -> res XE) (e : XE) (old : xuop) : Prop :=
+  exists e1 o' s2, f e = Ok e1 /\ xop_undo old (cur e1) = Ok (o', s2) /\ ~ xeqv s2 (cur e).
+Definition before_fix_refuted (f : XE -> res XE) (e : XE) (old : xuop) : Prop := undo_restores f e /\ old_record_fails f e old.
 
-Lemma known_setfont_witness_proof : undo_fails_to_restore (x_set_font false (Some 8%N)) known_setfont (wit_doc [(0, 1); (2, 6)]%N None 3 2).
+Ltac fonts_eq_concrete :=
+  let k := fresh "k" in intro k; cbn;
+  repeat match goal with |- context [(k =? ?c)%N] => let E := fresh in destruct (k =? c)%N eqn:E; [apply N.eqb_eq in E; subst k; reflexivity|] end;
+  reflexivity.
+
+Lemma setfont_before_fix_refuted_proof :
+  before_fix_refuted (x_set_font false (Some 8%N)) (wit_doc [(0, 1); (2, 6)]%N None 3 2) (XSetFont 2 (Some 1%N) 8).
 Proof.
-  split; [split; [reflexivity|discriminate]|]. eexists _, _. split; [vm_compute; reflexivity|]. split; [vm_compute; reflexivity|].
-  intros [_ (_ & Hf & _)]. specialize (Hf 2%N). vm_compute in Hf. discriminate.
+  split.
+  - eexists _, _. split; [vm_compute; reflexivity|]. split; [vm_compute; reflexivity|].
+    split; [apply eqv_refl|]. repeat split. fonts_eq_concrete.
+  - eexists _, _, _. split; [vm_compute; reflexivity|]. split; [vm_compute; reflexivity|].
+    intros [_ (_ & Hf & _)]. specialize (Hf 2%N). vm_compute in Hf. discriminate.
 Qed.
 
-Lemma known_addfont_witness_proof : undo_fails_to_restore (x_add_ansi_font 2 (Some 8%N)) (known_addfont 2) (wit_doc [(0, 1); (2, 6)]%N None 3 0).
+Lemma addfont_before_fix_refuted_proof :
+  before_fix_refuted (x_add_ansi_font 2 (Some 8%N)) (wit_doc [(0, 1); (2, 6)]%N None 3 0) (XAddFont 0 2 8 None).
 Proof.
-  split; [unfold known_addfont; vm_compute; discriminate|]. eexists _, _. split; [vm_compute; reflexivity|]. split; [vm_compute; reflexivity|].
-  intros [_ (_ & Hf & _)]. specialize (Hf 2%N). vm_compute in Hf. discriminate.
+  split.
+  - eexists _, _. split; [vm_compute; reflexivity|]. split; [vm_compute; reflexivity|].
+    split; [apply eqv_refl|]. repeat split. fonts_eq_concrete.
+  - eexists _, _, _. split; [vm_compute; reflexivity|]. split; [vm_compute; reflexivity|].
+    intros [_ (_ & Hf & _)]. specialize (Hf 2%N). vm_compute in Hf. discriminate.
 Qed.
 
-Lemma known_fontslot_witness_proof : undo_fails_to_restore (x_change_font_slot 2 3) (known_fontslot 2 3) (wit_doc [(0, 1); (2, 6); (3, 7)]%N None 3 0).
+Lemma fontslot_before_fix_refuted_proof :
+  before_fix_refuted (x_change_font_slot 2 3) (wit_doc [(0, 1); (2, 6); (3, 7)]%N None 3 0) (XChangeFontSlot 2 3 None).
 Proof.
-  split; [unfold known_fontslot; vm_compute; repeat split; discriminate|]. eexists _, _. split; [vm_compute; reflexivity|]. split; [vm_compute; reflexivity|].
-  intros [_ (_ & Hf & _)]. specialize (Hf 3%N). vm_compute in Hf. discriminate.
+  split.
+  - eexists _, _. split; [vm_compute; reflexivity|]. split; [vm_compute; reflexivity|].
+    split; [apply eqv_refl|]. repeat split. fonts_eq_concrete.
+  - eexists _, _, _. split; [vm_compute; reflexivity|]. split; [vm_compute; reflexivity|].
+    intros [_ (_ & Hf & _)]. specialize (Hf 3%N). vm_compute in Hf. discriminate.
 Qed.
 
-Lemma known_sauce_size_witness_proof : undo_fails_to_restore (x_resize_buffer 3 1) known_sauce_size (wit_doc [(0, 1)]%N (Some (mkSauce 7 3 5)) 0 0).
+Lemma resize_sauce_size_before_fix_refuted_proof :
+  before_fix_refuted (x_resize_buffer 3 1) (wit_doc [(0, 1)]%N (Some (mkSauce 7 3 5)) 0 0) (XResizeBuffer 4 2 3 1 None).
 Proof.
-  split; [unfold known_sauce_size, sauce_in_sync; vm_compute; intros [H _]; discriminate|].
-  eexists _, _. split; [vm_compute; reflexivity|]. split; [vm_compute; reflexivity|].
-  intros [_ (_ & _ & Hs & _)]. vm_compute in Hs. discriminate.
+  split.
+  - eexists _, _. split; [vm_compute; reflexivity|]. split; [vm_compute; reflexivity|]. apply xeqv_refl.
+  - eexists _, _, _. split; [vm_compute; reflexivity|]. split; [vm_compute; reflexivity|].
+    intros [_ (_ & _ & Hs & _)]. vm_compute in Hs. discriminate.
 Qed.
